@@ -45,8 +45,12 @@ SMALL_VALID = [
     "match a:\n    case {'k': v, **r}: pass\n", "match a:\n    case B(c, d=e) | f: pass\n", "type X[T] = list[T]\n", "def f[T: int, *Ts, **P](): pass\n", "x = a[1:2, ::3]\n", "x = (yield)\n", "x = (a := 1)\n",
     "assert a, b\n", "raise a from b\n", "global a, b\n", "return a\n", "x = not a in b\n", "x = a < b <= c\n", "x = -a ** -b\n", "x = a @ b\n", "x = 'a' 'b'\n", "x = f'{a!r:>{w}}'\n", "x = f'{a}' 'b'\n", "x = b'a' b'b'\n",
     "x = lambda: (yield)\n", "print(a, end='')\n", "a = b, = c\n", "for a in b, c: pass\n", "x = [a, b][0]\n", "with (a as b, c as d): pass\n", "x = a.b.c\n", "x = ...\n", "x = 1_0.0e-1j\n",
+    "async with a, b: pass\n", "async with a as b: pass\n", "async for a in b: pass\n", "with a, b: pass\n", "match a:\n    case {**r}: pass\n", "match a:\n    case [_, *_]: pass\n", "match a:\n    case (b as c) | d: pass\n",
+    "match a:\n    case -1 | 1.5+2j: pass\n", "match a:\n    case B.c(d=_): pass\n", "try:\n    a\nfinally:\n    b\n", "class A: x: int\n", "def f(a, /, b, *, c): pass\n", "lambda a, /, b=1, *c, d, **e: 0\n", "nonlocal a\n",
+    "from .. import a as b\n", "import a, b.c\n", "x = a[b, *c]\n", "x = {*a, b}\n", "x = (*a, b)\n", "x = [a async for a in b]\n", "@a\nclass B: pass\n", "for a, in b: pass\n", "x = a if b else c if d else e\n", "del (a, b), [c]\n",
 ]
-NEIGHBOUR_VOCAB = ["*", "**", "=", ",", ":", "(", ")", "[", "]", "x", "1", "'s'", "not", "in", "if", "else", "for", "as", "lambda", ".", "b'b'", "f''", ";", "@", ":=", "await", "yield", "del", "import", "=="]
+# every keyword, operator and delimiter of the mutation vocabulary (no whitespace / quote fragments) plus a few atoms
+NEIGHBOUR_VOCAB = sorted({t for t in mutate.PY_VOCAB if t.strip() and "\n" not in t and not set(t) <= set("'\"f{")} | {"_", "b'b'", "f''", "None", "True", "|", "<", "->", "...", "type", "match", "case", "async", "await"})
 
 
 def in_python_lexicon(src: str) -> bool:
@@ -158,8 +162,9 @@ def search(rec, ctx):
     drive(st.randoms(use_true_random=False), prefixes, ctx.budget(400, 8000), ctx.hseed("prefix"))
 
     # ---- (c2) the complete single-token-edit neighbourhood of small valid statements ---------------
-    def neighbourhood(rnd):
-        base = rnd.choice(SMALL_VALID) if rnd.random() < 0.6 else PyGen(rnd, max_depth=2).stmt(0, "")
+    def neighbourhood(rnd, base=None):
+        if base is None:
+            base = PyGen(rnd, max_depth=2).stmt(0, "")
         if cpy(base).kind != "tree":
             return
         toks = [t for t in mutate.lex(base)]
@@ -178,7 +183,10 @@ def search(rec, ctx):
             v[a], v[b] = v[b], v[a]
             check(rec, {"src": "".join(v), "stream": "single-edit-neighbourhood", "near": True})
 
-    drive(st.randoms(use_true_random=False), neighbourhood, ctx.budget(160, 3000), ctx.hseed("neighbourhood"))
+    for base in ctx.shard(SMALL_VALID):  # exhaustive: every statement of the list, every position, every vocabulary token
+        neighbourhood(None, base)
+    rec.notes["exhaustive_neighbourhood"] = f"all single-token edits of {len(SMALL_VALID)} small valid statements over {len(NEIGHBOUR_VOCAB)} vocabulary tokens"
+    drive(st.randoms(use_true_random=False), neighbourhood, ctx.budget(160, 4000), ctx.hseed("neighbourhood"))
 
     # ---- (c3) f-string statements and their mutations (f-strings are Python lexemes too) -----------
     def fmut(rnd):
